@@ -163,7 +163,7 @@ def mc(families, impl, mode, invariants, properties, liveness=False, timeout=300
 # per property: invariants/properties of Sched.tla, families, negative controls
 DAG_Q = ["pair", "chain3p", "fanin1", "diamondp", "pullchain2", "pulltwice"]
 DAG_T = DAG_Q + ["pairL", "chain3t", "fanin2", "fanout", "fanoutshared", "diamondt", "pair3", "pairXL"]
-CYC_Q = ["ring2", "pullring", "pullringtail", "ringbreak", "ring2tail"]
+CYC_Q = ["ring2", "pullring", "pullringtail", "ringbreak", "ring2tail", "ringfanin"]
 CYC_T = CYC_Q + ["ring3", "ring4"]
 
 PLAN = {
@@ -178,7 +178,8 @@ PLAN = {
                 quick=DAG_Q + ["ring2", "fanin2"], thorough=DAG_T + CYC_T,
                 neg=[(["pairL"], "nocompose", ["OnlyAllowedChoices"])], known_mc=[], extra_trace=[]),
     "C03": dict(inv=["EndReached"], prop=["Monotone", "NoLateUpdate", "Terminates"], live=True,
-                quick=["pair", "chain3p", "fanin1", "ring2", "diamondp", "pullchain2", "fanoutshared"], thorough=DAG_T + CYC_T,
+                quick=["pair", "chain3p", "fanin1", "ring2", "diamondp", "pullchain2", "fanoutshared", "lateidle", "ringfanin"],
+                thorough=DAG_T + CYC_T + ["lateidle"],
                 neg=[], known_mc=[], extra_trace=[]),
     "C04": dict(inv=["NoFalseCycle", "UnbrokenNeverErr"],
                 prop=["CycleOnlyWhenReachable", "ResolvedCompletes", "UnbrokenReported"], live=True,
